@@ -65,6 +65,7 @@ def gen_steps(rng, cfg, pfx, modname):
     window_nonempty = False
     chunk_start = True
     deleted = False
+    co_helpers = []         # coroutine functions defined by the doctest itself
     chunk_semi = False      # a ';' line in the current chunk makes its final expression run in REPL mode
     for i in range(n):
         forms = list(cfg.forms)
@@ -87,7 +88,7 @@ def gen_steps(rng, cfg, pfx, modname):
         elif rng.random() < cfg.p_helper:
             form = rng.choice(['defhelper', 'defemit'])
         elif cfg.async_forms and rng.random() < cfg.p_async:
-            form = rng.choice(cfg.async_forms)
+            form = rng.choice(cfg.async_forms + (['awaitco', 'awaitco'] if co_helpers else ['asyncdef']))
         else:
             form = rng.choice(forms)
         npts = NPTS.get(form, 1)
@@ -106,6 +107,10 @@ def gen_steps(rng, cfg, pfx, modname):
             if form == 'defhelper' and rng.random() < 0.3:
                 st['deco'] = True
             helpers.append(i)
+        if form == 'asyncdef':
+            co_helpers.append(i)
+        if form == 'awaitco':
+            st['ref'] = rng.choice(co_helpers)
         if form in ('callhelper', 'callhelper_expr'):
             ref = rng.choice(helpers)
             st['ref'] = ref
